@@ -87,7 +87,7 @@ CHECKS = {
                 "result equals max_dist_from_n_points(pts) < tol with ffgeom executed symbolically (sqrt as a fresh root). L2: supersample "
                 "is executed with the predicate replaced by a memoised nondeterministic stub on lists up to the bound, exploring every "
                 "answer sequence: in-order subsequence of the same objects, first/last kept, every deleted run is the interior of a slice "
-                "judged in tolerance, short lists / non-positive tolerances untouched. L1+L2 give the property. An end-to-end case runs supersample with the real predicate on 3 (thorough 4) symbolic vertices and proves every deleted vertex within tolerance of the segment between its surviving neighbours, independently of how the function is organised; a further end-to-end case runs it on 4 (thorough 5) symbolic vertices with the predicate replaced by its contract L1 (assume-guarantee) and replays counterexamples with the real predicate.",
+                "judged in tolerance, short lists / non-positive tolerances untouched. L1+L2 give the property. An end-to-end case runs supersample with the real predicate on 3 symbolic vertices and proves every deleted vertex within tolerance of the segment between its surviving neighbours, independently of how the function is organised; a further end-to-end case runs it on 4 (thorough 5) symbolic vertices with the predicate replaced by its contract L1 (assume-guarantee) and replays counterexamples with the real predicate.",
         "note": "exact-real model of binary64; n <= 4 (quick) / 5 (thorough) points for L1, lists <= 6 / 9 for L2; the composition of L1 and "
                 "L2 is a paper argument (the stub's contract is L1)",
         "technique": "symbolic execution of the Python source on z3 real terms + SMT (QF_NRA) obligations per path; nondeterministic stub for the structural lemma; counterexample replay",
